@@ -123,7 +123,7 @@ class Gen:
                     if k not in seen:
                         seen.add(k); out.append(it)
                 items = out
-            return {"op": name, "fmt": fmt, "items": items, "attr": enc_attrs_req(self.attrs(0.3))}
+            return {"op": name, "fmt": fmt, "items": items, "attr": enc_attrs_req(self.attrs(0.3)), "share_sets": (True if b(0.3) else ("iter" if b(0.15) else False))}
         if name == "add_weighted_edges_from":
             items = [{"members": [enc_id(x) for x in self.members(1, 3)], "attr": [[None, r.choice([1, 2, 5])]]} for _ in range(r.randint(0, 3))]
             wname = r.choice(["weight", "w"])
@@ -230,12 +230,31 @@ def _node_items(items):
     return out
 
 
-def _ebunch(fmt, items):
-    if fmt == 5:
-        return {dec_id(it["idx"]): [dec_id(m) for m in it["members"]] for it in items}
-    out = []
-    for it in items:
+def _ebunch(fmt, items, share=False):
+    """the Python ebunch for a bulk call.  With `share`, duplicate-free member lists are handed over as `set` objects and
+    equal member sets as ONE shared object (the network must copy what it is given); the iteration order of each set is
+    written back into the item so that the model sees the members in the order the implementation iterates them."""
+    cache = {}
+
+    def members(it):
         ms = [dec_id(m) for m in it["members"]]
+        if share == "iter":
+            return iter(ms)              # a one-shot iterable: the library may look at it only once
+        if not share or len(set(map(repr, ms))) != len(ms) or None in ms:
+            return ms
+        try:
+            st = cache.setdefault(tuple(sorted(map(repr, ms))), set(ms))
+        except TypeError:
+            return ms
+        it["members"] = [enc_id(x) for x in st]
+        return st
+    if fmt == 5:
+        return {dec_id(it["idx"]): members(it) for it in items}
+    out = []
+    for k, it in enumerate(items):
+        # (format 1: the first edge stays a list — the library's format sniffing treats a set-valued first edge
+        #  differently from a list, which the model's format-1 rule does not distinguish)
+        ms = [dec_id(m) for m in it["members"]] if (fmt == 1 and k == 0 and share != "iter") else members(it)
         if fmt == 1:
             out.append(ms)
         elif fmt == 2:
@@ -278,7 +297,7 @@ def call(H, op):
             op["idx"] = "$auto"                                # idx=None *is* the automatic id
         return H.add_edge(ms, **kw, **_attrs(op["attr"]))
     if name == "add_edges_from":
-        return H.add_edges_from(_ebunch(op["fmt"], op["items"]), **_attrs(op["attr"]))
+        return H.add_edges_from(_ebunch(op["fmt"], op["items"], op.get("share_sets", False)), **_attrs(op["attr"]))
     if name == "add_weighted_edges_from":
         eb = [[dec_id(m) for m in it["members"]] + [it["attr"][0][1]] for it in op["items"]]
         return H.add_weighted_edges_from(eb, weight=op["weight"], **_attrs(op["attr"]))
@@ -404,7 +423,7 @@ def snapshot(H, out="ok"):
 
 
 def to_request(op):
-    r = {k: v for k, v in op.items() if k not in ("members_raw", "seed", "weight")}
+    r = {k: v for k, v in op.items() if k not in ("members_raw", "seed", "weight", "share_sets")}
     return r
 
 
